@@ -71,7 +71,8 @@ def p1_programs():
                 out.append(fn(f, [], [x, y]))
         out.append(fn(f, [], [T(5), A]))
     for f in ("between", "inside", "from_to", "range", "beyond", "outside"):
-        for lo, hi in ((T(1), T(9)), (T(9), T(1)), (T(0), T(10)), (T("a"), T("b")), (B, T(10)), (T(2), T(2))):
+        for lo, hi in ((T(1), T(9)), (T(9), T(1)), (T(0), T(10)), (T("a"), T("b")), (B, T(10)), (T(2), T(2)),
+                       (T("2"), T("10")), (T("10"), T("2")), (B, T("10")), (T("-3"), B)):  # all three operands strings: numbers still order as numbers
             out.append(fn(f, [], [A, lo, hi]))
     out += [fn("in", [], [A, T("a|b|1")]), fn("in", [], [A, T("abc|10"), B]), fn("in", [], [A, B]), fn("in", [], [A, T("1"), T("2|9")])]
     for f in ("empty", "exists", "not"):
